@@ -404,7 +404,12 @@ class Gen:
         w('    typedef vf::switch_policy<VF_SWITCH>::type active_state_switch_policy;')
         w('    using history = vf::front_hist<%s >::type;' % self.hist_type(m))
         inits = [self.state_type(m, n) for n in m['regions']]
-        w('    typedef boost::mpl::vector<%s > initial_state;' % ','.join(inits))
+        if len(inits) == 1:
+            # the common single-region spelling: the back-ends have a separate dispatch path for it
+            # (region_processing_helper without the region loop)
+            w('    typedef %s initial_state;' % inits[0])
+        else:
+            w('    typedef boost::mpl::vector<%s > initial_state;' % ','.join(inits))
         ec = ix.explicit_creation(m)
         if ec:
             w('    typedef boost::mpl::vector<%s > explicit_creation;' % ','.join(self.state_type(m, n) for n in ec))
